@@ -210,6 +210,11 @@ unsafe impl<'a, R: Resource> SystemParam for Option<ResMut<'a, R>>
 //---------------- Local
 
 pub struct Local<'s, T: FromWorld + Send + 'static>(pub(crate) &'s mut T);
+impl<'s, T: FromWorld + Send + 'static> Local<'s, T>
+{
+    /// verification-only: a `Local` over a value owned by the harness
+    pub fn m_new(value: &'s mut T) -> Self { Local(value) }
+}
 impl<'s, T: FromWorld + Send + 'static> Deref for Local<'s, T> { type Target = T; fn deref(&self) -> &T { self.0 } }
 impl<'s, T: FromWorld + Send + 'static> DerefMut for Local<'s, T> { fn deref_mut(&mut self) -> &mut T { self.0 } }
 pub struct SyncCell<T>(pub T);
